@@ -358,7 +358,7 @@ pub fn run(ctx: &Ctx) -> Report {
             }
         }
         let mut rng = Rng::derive(ctx.seed, 0xC01 + wbits as u64 + if e == En::BE { 0 } else { 1000 });
-        let backends: Vec<WBackend> = vec![WBackend::Rec(None), WBackend::VecOwned, WBackend::Slice(64), WBackend::AdVec, WBackend::AdSink, WBackend::AdShort(3)];
+        let backends: Vec<WBackend> = vec![WBackend::Rec(None), WBackend::VecOwned, WBackend::Slice(64), WBackend::AdVec, WBackend::AdSink, WBackend::AdShort(3), WBackend::VecDirty];
         // ---- (1) exhaustive: every fill level x every op x second op x finish ----
         let fills: Vec<usize> = match ctx.tier {
             Tier::Thorough => (0..wbits).collect(),
